@@ -17,7 +17,7 @@ type c08Shape struct {
 	ptr      bool // the model declares its marker as *gorm.DeletedAt
 }
 
-var c08Units = []int{0, 1, 2, 3, 5, 6, 9, 11, 12, 14, 15, 20}
+var c08Units = []int{0, 1, 2, 3, 5, 6, 9, 11, 12, 14, 15, 20, 33, 34}
 
 func c08Shapes(tier int) []c08Shape {
 	var r []c08Shape
